@@ -157,10 +157,14 @@ struct C23 : Monitor {
 };
 } // namespace
 
+int C23TimePart(); // timepart.cpp: header-timestamp grid around the difficulty-adjustment boundary (BIP94 floor)
+
 int main(int argc, char** argv)
 {
     C23 mon;
     return ps::Main(argc, argv, "C23", [&] {
+        // part (t) runs first, inside the configuration callback (after vx::init); a harness error there ends the run
+        if (vx::ctx().replay.empty()) { int trc = C23TimePart(); if (trc == 2) { vx::write_evidence(); exit(2); } }
         ps::Opts o;
         o.max_size_bytes = 40000;
         o.cluster_size_vbytes = 1000;
